@@ -412,6 +412,10 @@ func Run(c *hx.Ctx) {
 	c.Rng = c.Rng.Fork()
 	log.DefaultLogger.SetLogLevel(log.FATAL)
 	log.Proxy.SetLogLevel(log.FATAL)
+	if os.Getenv("VERIF_C07_ONLY") == "h1seg" { // development aid: only the HTTP/1 kind
+		h1segCases(c)
+		return
+	}
 	ms := matchers()
 	nSmall := c.N(70, 260) // streams <= 600 bytes per protocol: every cut offset + several segmentations
 	nBig := c.N(8, 40)     // larger streams per protocol (frames up to 70000 bytes): random segmentations
@@ -510,4 +514,6 @@ func Run(c *hx.Ctx) {
 	pktCases(c)
 	// HTTP/2: what the stream layer delivers does not alias the read buffer (h2own.go)
 	h2ownCases(c)
+	// HTTP/1: pipelined messages through the real stream connections of pkg/stream/http (h1seg.go)
+	h1segCases(c)
 }
